@@ -18,6 +18,7 @@ CONSTANTS
                  \* FALSE: only during the shutdown (what C05 establishes for the real queue)
 
 \* plans for the configuration files (a cfg file cannot spell a tuple)
+Plan1 == <<<<1>>>>                  \* one request
 Plan11 == <<<<1>>, <<2>>>>          \* two handlers, one request each
 Plan2 == <<<<1, 2>>>>               \* one handler, two requests
 Plan21 == <<<<1, 2>>, <<3>>>>       \* two handlers, 2 + 1 requests
@@ -26,7 +27,9 @@ Plan111 == <<<<1>>, <<2>>, <<3>>>>  \* three handlers, one request each
 AnyMode(e) == {"try", "guard", "fg", "wait", "disc"}
 Direct(e) == {"try", "guard"}                                    \* no sub-task
 SubFirst(e) == IF e = 1 THEN {"fg", "wait", "disc"} ELSE {"try", "guard"}  \* request 1 has a sub-task
+SubTry(e) == IF e = 1 THEN {"wait", "disc"} ELSE {"try"}
 TryOnly(e) == {"try"}
+DiscOnly(e) == {"disc"}
 
 Handlers == DOMAIN Plan
 AllReqs == UNION {{Plan[p][i] : i \in DOMAIN Plan[p]} : p \in Handlers}
@@ -36,11 +39,6 @@ OpOf(e) == IF e % 2 = 1 THEN "GetItem" ELSE "PutItem"
 OwnerDone(e) == Has(e) /\ (rq[e].ost = "dropped" \/ rq[e].sk = "none")
 CanStart(p, i) == /\ ~Has(Plan[p][i])
                   /\ (i > 1 => OwnerDone(Plan[p][i - 1]))
-
-LinesFor(e) ==
-    LET r == rq[e] IN
-    {[e |-> e, op |-> r.op, ts |-> r.ts, c |-> r.cnt, h |-> r.cnt, t |-> t, sub |-> s] :
-        t \in r.tlo..(IF r.thi = -1 THEN r.clk ELSE r.thi), s \in {-1, r.subv}}
 
 SubBy(e) == IF HasSlot(rq[e].mode) THEN 1 ELSE 0
 SubD(e) == IF Enabling(rq[e].mode) THEN 1 ELSE 0
